@@ -9,6 +9,7 @@ package main
 import (
 	"encoding/json"
 	"fmt"
+	"runtime"
 	"sync"
 	"sync/atomic"
 	"time"
@@ -32,9 +33,81 @@ type realRun struct {
 	mu    sync.Mutex
 	outs  map[int64]string
 	outCh chan struct{}
+	probe *probeStats
 }
 
-func startReal(plugin string, selectors []string, capacity int) (*realRun, error) {
+// probe actions (harness-side, parallel clause only): placed right before and
+// right after the plugin under test, they count how many processors are inside
+// that window at the same time, so the evidence shows that the plugin's Do
+// really ran concurrently on several events.
+type probeStats struct {
+	inside  atomic.Int64
+	maxSeen atomic.Int64
+	overlap atomic.Int64  // events that entered while another processor was inside
+	gate    chan struct{} // closed once every event is queued: processors then drain their streams side by side
+	arrived atomic.Int64  // processors that passed the gate (bounded spin barrier, so they start together)
+	want    int64
+}
+
+var probes sync.Map // pipeline name -> *probeStats
+
+type probePlugin struct {
+	st       *probeStats
+	exit     bool
+	released bool
+}
+type probeConfig struct{}
+
+func (p *probePlugin) Start(_ pipeline.AnyConfig, params *pipeline.ActionPluginParams) {
+	if v, ok := probes.Load(params.PipelineName); ok {
+		p.st = v.(*probeStats)
+	}
+}
+func (p *probePlugin) Stop() {}
+func (p *probePlugin) Do(_ *pipeline.Event) pipeline.ActionResult {
+	if p.st == nil {
+		return pipeline.ActionPass
+	}
+	if p.exit {
+		p.st.inside.Add(-1)
+		return pipeline.ActionPass
+	}
+	if !p.released {
+		p.released = true
+		<-p.st.gate
+		p.st.arrived.Add(1)
+		// Busy-wait (no yield) until `want` processors are spinning here at the same time, i.e. are
+		// really running on different threads; bounded by an iteration count (no clock, never a deadlock).
+		for i := 0; i < 2_000_000 && p.st.arrived.Load() < p.st.want; i++ {
+		}
+	}
+	n := p.st.inside.Add(1)
+	if n > 1 {
+		p.st.overlap.Add(1)
+	}
+	for {
+		m := p.st.maxSeen.Load()
+		if n <= m || p.st.maxSeen.CompareAndSwap(m, n) {
+			break
+		}
+	}
+	return pipeline.ActionPass
+}
+
+func init() {
+	fd.DefaultPluginRegistry.RegisterAction(&pipeline.PluginStaticInfo{Type: "c18_probe_in", Factory: func() (pipeline.AnyPlugin, pipeline.AnyConfig) {
+		return &probePlugin{}, &probeConfig{}
+	}})
+	fd.DefaultPluginRegistry.RegisterAction(&pipeline.PluginStaticInfo{Type: "c18_probe_out", Factory: func() (pipeline.AnyPlugin, pipeline.AnyConfig) {
+		return &probePlugin{exit: true}, &probeConfig{}
+	}})
+}
+
+// startReal builds and starts the pipeline. parallel=false: one processor
+// (one plugin instance). parallel=true: the default GOMAXPROCS*2 processors,
+// each with its own plugin instance started from the same config pointer,
+// plus the probe actions around the plugin.
+func startReal(plugin string, selectors []string, capacity int, parallel bool) (*realRun, error) {
 	settings := &pipeline.Settings{
 		Capacity:            capacity, // small pools recycle event objects (and their insane-json roots) quickly
 		MaintenanceInterval: time.Second * 5,
@@ -51,7 +124,13 @@ func startReal(plugin string, selectors []string, capacity int) (*realRun, error
 	}
 	name := fmt.Sprintf("c18_%d", pipelineSeq.Add(1))
 	p := pipeline.New(name, settings, prometheus.NewRegistry(), zap.NewNop())
-	p.DisableParallelism() // one processor => one plugin instance for every event
+	rr := &realRun{outs: map[int64]string{}, outCh: make(chan struct{}, 4096)}
+	if parallel {
+		rr.probe = &probeStats{gate: make(chan struct{}), want: int64(min(runtime.GOMAXPROCS(0), 4))}
+		probes.Store(name, rr.probe)
+	} else {
+		p.DisableParallelism() // one processor => one plugin instance for every event
+	}
 
 	inAny, _ := fake.Factory()
 	in := inAny.(*fake.Plugin)
@@ -66,7 +145,11 @@ func startReal(plugin string, selectors []string, capacity int) (*realRun, error
 		PluginRuntimeInfo: &pipeline.PluginRuntimeInfo{Plugin: out},
 	})
 
-	actions, err := json.Marshal([]map[string]any{{"type": plugin, "fields": selectors}})
+	acts := []map[string]any{{"type": plugin, "fields": selectors}}
+	if parallel {
+		acts = []map[string]any{{"type": "c18_probe_in"}, acts[0], {"type": "c18_probe_out"}}
+	}
+	actions, err := json.Marshal(acts)
 	if err != nil {
 		return nil, err
 	}
@@ -78,7 +161,7 @@ func startReal(plugin string, selectors []string, capacity int) (*realRun, error
 		return nil, fmt.Errorf("SetupActions: %w", err)
 	}
 
-	rr := &realRun{p: p, input: in, outs: map[int64]string{}, outCh: make(chan struct{}, 1024)}
+	rr.p, rr.input = p, in
 	out.SetOutFn(func(e *pipeline.Event) {
 		s := e.Root.EncodeToString()
 		rr.mu.Lock()
@@ -112,7 +195,43 @@ func (rr *realRun) feed(events []*eventCase, from, to int, watchdog time.Duratio
 	return nil
 }
 
-func (rr *realRun) stop() { rr.p.Stop() }
+// feedParallel sends all events from `feeders` goroutines over `sources`
+// source ids (one stream each, so several processors work at once) and waits
+// until all of them reached the output. The pool is larger than the number
+// of events, so nobody waits for a free event. The entry probe holds the
+// processors until everything is queued; then they all run flat out.
+func (rr *realRun) feedParallel(events []*eventCase, feeders, sources int, watchdog time.Duration) error {
+	var fed sync.WaitGroup
+	fed.Add(feeders)
+	go func() {
+		fed.Wait()
+		close(rr.probe.gate)
+	}()
+	for f := 0; f < feeders; f++ {
+		go func(f int) {
+			defer fed.Done()
+			for i := f; i < len(events); i += feeders {
+				src := pipeline.SourceID(i % sources)
+				rr.input.In(src, fmt.Sprintf("c18-%d.log", src), pipeline.NewOffsets(int64(i), nil), []byte(events[i].bytes))
+			}
+		}(f)
+	}
+	timer := time.NewTimer(watchdog)
+	defer timer.Stop()
+	for n := 0; n < len(events); n++ {
+		select {
+		case <-rr.outCh:
+		case <-timer.C:
+			return fmt.Errorf("watchdog: %d of %d events reached the output", n, len(events))
+		}
+	}
+	return nil
+}
+
+func (rr *realRun) stop() {
+	rr.p.Stop()
+	probes.Delete(rr.p.Name)
+}
 
 func (rr *realRun) out(i int) (string, bool) {
 	rr.mu.Lock()
